@@ -1348,8 +1348,16 @@ class FnTranslator:
                 COQTY['Y'] = 'list (%s)' % ' * '.join(COQTY[t] for t in self.yield_types)
                 env['yield__'] = ('(@nil (%s))' % ' * '.join(COQTY[t] for t in self.yield_types), 'Y')
                 self.loop_carried.append(('yield__', 'Y'))
-            self.loop_has_break = any(isinstance(x, ast.Break) for x in ast.walk(ast.Module(body=node.body, type_ignores=[]))
-                                      if not isinstance(x, (ast.For, ast.While)) or x is node)
+            def own_break(nodes):         # a `break` of THIS loop: not inside a loop nested in the body
+                for y in nodes:
+                    if isinstance(y, ast.Break):
+                        return True
+                    if isinstance(y, (ast.For, ast.While, ast.FunctionDef, ast.Lambda)):
+                        continue
+                    if own_break(list(ast.iter_child_nodes(y))):
+                        return True
+                return False
+            self.loop_has_break = own_break(node.body)
             body = list(node.body)
             for oq in sp.get('opaque', []):
                 nb = self.replace_opaque(body, oq, ast.unparse(ast.Module(body=list(node.body), type_ignores=[])))
@@ -1400,10 +1408,21 @@ class FnTranslator:
                             if isinstance(x, ast.Name) and isinstance(x.ctx, ast.Store) and x.id not in declared:
                                 if _re.search(r'(?<![\w.])' + _re.escape(x.id) + r'(?![\w])', outside):
                                     raise Refuse('%s: the opaque range stores into %s, which is used outside it and not declared' % (self.rel, x.id))
-                            if isinstance(x, (ast.Return, ast.Break, ast.Continue)):
+                            if isinstance(x, ast.Return):
                                 raise Refuse('%s: the opaque range leaves the iteration' % self.rel)
                             if isinstance(x, ast.Subscript) and isinstance(x.ctx, ast.Store):
                                 raise Refuse('%s: the opaque range stores into a container' % self.rel)
+                        def leaves(nodes):       # a break / continue that is not inside a loop of the range itself
+                            for y in nodes:
+                                if isinstance(y, (ast.Break, ast.Continue)):
+                                    return True
+                                if isinstance(y, (ast.For, ast.While, ast.FunctionDef, ast.Lambda)):
+                                    continue
+                                if leaves(list(ast.iter_child_nodes(y))):
+                                    return True
+                            return False
+                        if leaves(rng):
+                            raise Refuse('%s: the opaque range leaves the iteration' % self.rel)
                         has_yield = any(isinstance(x, (ast.Yield, ast.YieldFrom)) for x in ast.walk(mod))
                         if has_yield and not oq.get('yields'):
                             raise Refuse('%s: the opaque range yields but declares no `yields` parameter' % self.rel)
